@@ -1,4 +1,305 @@
-import Cppcheck.Model.Ctu
-import Cppcheck.Model.Unused
+import Cppcheck.Proofs.UnusedText
+/-
+C22 — whole-program results do not depend on how summaries are stored: property theorems.
+
+Reading guide.  `toStr`/`toXml`/`store` are the writers of the code (text, byte for byte), `fromBuildDir` is the reader
+(`processFilesTxt` + handler: modelled tinyxml2 lexer, tree builder, attribute reader, then the `loadFromXml` family),
+`inMemory` is what `CppCheck::analyseWholeProgram()` uses without a build dir.  `simp` stands for `Path::simplifyPath`
+(a parameter).  Every hypothesis is a decidable predicate on the value:
+  * `XmlSafe s`  – all bytes of `s` are TAB, LF, CR or 0x20..0x7f (needed for strings written through `toxml`),
+  * `RawSafe s`  – no `"`, `&`, CR, NUL (needed for the fields written without escaping: function ids, argument names),
+  * `inS n i` / `inU n i` – `i` is a value of the C++ field's integer type,
+  * `simp p.file = p.file` – value-path file names are already simplified (they always are: `FileLocation` stores
+    `simplifyPath(file)`).
+Each hypothesis comes with a counterexample theorem (and a replayed witness in corpus/C22).
+-/
 namespace Cppcheck.Ctu
+open Cppcheck.Wire
+
+/-! ## text layer -/
+
+/-- **escaping.** What the tinyxml2 attribute reader returns for a string written with `ErrorLogger::toxml`, for EVERY byte
+    string: bytes outside TAB/LF/CR/0x20..0x7f come back as 'x', NUL as the two characters `\0`. -/
+theorem attrDecode_toxml (s : Str) : attrDecode (toxml s) = lossy s := attrDecode_toxml' s
+
+/-- the image is the string itself exactly for XML-safe strings -/
+theorem lossy_eq_self_iff (s : Str) : lossy s = s ↔ XmlSafe s = true :=
+  ⟨safe_of_lossy s, lossy_of_safe s⟩
+
+/-- the hypothesis is needed: a UTF-8 file name does not survive (ä.c ↦ xx.c) -/
+theorem toxml_lossy_counterexample :
+    attrDecode (toxml [Char.ofNat 0xC3, Char.ofNat 0xA4, '.', 'c']) = "xx.c".toList
+    ∧ ¬ (∀ s : Str, attrDecode (toxml s) = s) := by
+  refine ⟨by decide, ?_⟩
+  intro h
+  exact absurd (h [Char.ofNat 0xC3]) (by decide)
+
+/-- **numbers.** Every `long long` written with `operator<<` is read back by `XMLUtil::ToInt64` -/
+theorem scanInt64_showInt (i : Int) (h : inS 64 i = true) : scanInt64 (showInt i) = some i := scanInt64_showInt' i h
+
+example : XmlSafe "a<b> & \"q\"\t'x'\r\n".toList = true := by decide
+example : RawSafe "dir/x.h:12:7".toList = true := by decide
+example : inS 64 (-9223372036854775808) = true ∧ inS 32 2147483647 = true ∧ inU 8 255 = true := by decide
+
+/-! ## the whole-program input -/
+
+/-- **C22, main theorem.**  For every list of translation-unit summaries (function calls with value paths, nested calls,
+    unsafe usages of the three CTU checks, class definitions), each written to its cache file by the writers of the code:
+    what `analyseWholeProgram(buildDir)` reads back is exactly the in-memory input of `analyseWholeProgram()`.
+    Hence every whole-program result computed from it (`analysis` is arbitrary) is the same in both modes. -/
+theorem wholeProgram_storage_independent {α : Type} (simp : Str → Str) (tus : List (Nat × TUSummary))
+    (h : ∀ t ∈ tus, t.2.Ok simp = true) (analysis : WholeProgram → α) :
+    (fromBuildDir (tus.map fun t => t.2.store simp t.1) WholeProgram.empty).map analysis
+      = some (analysis (inMemory (tus.map (·.2)))) := by
+  rw [fromBuildDir_stores simp tus WholeProgram.empty h]
+  rfl
+
+/-- one cache file: reading it adds to the accumulated input what the in-memory run adds -/
+theorem cacheFile_roundtrip (simp : Str → Str) (hash : Nat) (t : TUSummary) (h : t.Ok simp = true) (wp : WholeProgram) :
+    fromBuildDir [t.store simp hash] wp = some (addInMemory wp t) := by
+  have := fromBuildDir_stores simp [(hash, t)] wp (by intro x hx; simp at hx; subst hx; exact h)
+  simpa using this
+
+/-! ## per summary kind -/
+
+/-- a summary with only CTU call data -/
+def onlyCtu (fi : FileInfo) : TUSummary := ⟨fi, ⟨[], []⟩, [], [], []⟩
+
+/-- **CTU file info** (any number of function calls and nested calls) -/
+theorem fileInfo_roundtrip (simp : Str → Str) (hash : Nat) (fi : FileInfo) (h : fi.Ok simp = true) :
+    fromBuildDir [(onlyCtu fi).store simp hash] WholeProgram.empty = some { WholeProgram.empty with ctu := fi } := by
+  have hok : (onlyCtu fi).Ok simp = true := by simp [onlyCtu, TUSummary.Ok, h, BufferInfo.Ok]
+  rw [cacheFile_roundtrip simp hash _ hok]
+  simp [addInMemory, onlyCtu, WholeProgram.empty]
+
+/-- **function call** incl. its value path -/
+theorem functionCall_roundtrip (simp : Str → Str) (hash : Nat) (c : FunctionCall) (h : c.Ok simp = true) :
+    fromBuildDir [(onlyCtu ⟨[c], []⟩).store simp hash] WholeProgram.empty = some { WholeProgram.empty with ctu := ⟨[c], []⟩ } :=
+  fileInfo_roundtrip simp hash ⟨[c], []⟩ (by simp [FileInfo.Ok, h])
+
+/-- **nested call** (with the element name `<nested-call>` of the proposed fix) -/
+theorem nestedCall_roundtrip (simp : Str → Str) (hash : Nat) (c : NestedCall) (h : c.Ok = true) :
+    fromBuildDir [(onlyCtu ⟨[], [c]⟩).store simp hash] WholeProgram.empty = some { WholeProgram.empty with ctu := ⟨[], [c]⟩ } :=
+  fileInfo_roundtrip simp hash ⟨[], [c]⟩ (by simp [FileInfo.Ok, h])
+
+example : FunctionCall.Ok id ⟨"x.h:1:6".toList, "ns::h<int>".toList, 1, ⟨"dir/b.c".toList, 2, 15⟩, "&buf[\"k\"]".toList, 7, -1, 1, true,
+    [⟨"b.c".toList, "Assignment 'p=0', assigned value is <0>".toList, 3, 4294967295⟩]⟩ = true := by decide
+example : NestedCall.Ok ⟨"x.h:1:6".toList, "h".toList, 1, ⟨"b.c".toList, 2, 15⟩, "x.h:1:20".toList, 1⟩ = true := by decide
+
+/-- **unsafe usage list** (CheckNullPointer; CheckUninitVar is the same with `uninitVar`) -/
+theorem unsafeUsage_roundtrip (simp : Str → Str) (hash : Nat) (l : List UnsafeUsage) (h : l.all UnsafeUsage.Ok = true) :
+    fromBuildDir [TUSummary.store simp hash ⟨⟨[], []⟩, ⟨[], []⟩, [], l, l⟩] WholeProgram.empty
+      = some { WholeProgram.empty with nullPointer := if l = [] then [] else [l], uninitVar := if l = [] then [] else [l] } := by
+  have hok : TUSummary.Ok simp ⟨⟨[], []⟩, ⟨[], []⟩, [], l, l⟩ = true := by simp [TUSummary.Ok, FileInfo.Ok, BufferInfo.Ok, h]
+  rw [cacheFile_roundtrip simp hash _ hok]
+  simp [addInMemory, WholeProgram.empty]
+
+/-- **CheckBufferOverrun** (array-index and pointer-arith lists) -/
+theorem bufferInfo_roundtrip (simp : Str → Str) (hash : Nat) (b : BufferInfo) (h : b.Ok = true) :
+    fromBuildDir [TUSummary.store simp hash ⟨⟨[], []⟩, b, [], [], []⟩] WholeProgram.empty
+      = some { WholeProgram.empty with buffer := if b.arrayIndex = [] ∧ b.pointerArith = [] then [] else [b] } := by
+  have hok : TUSummary.Ok simp ⟨⟨[], []⟩, b, [], [], []⟩ = true := by simp [TUSummary.Ok, FileInfo.Ok, h]
+  rw [cacheFile_roundtrip simp hash _ hok]
+  simp [addInMemory, WholeProgram.empty]
+
+/-- **CheckClass** (one-definition-rule data) -/
+theorem classInfo_roundtrip (simp : Str → Str) (hash : Nat) (l : List ClassDef) (h : l.all ClassDef.Ok = true) :
+    fromBuildDir [TUSummary.store simp hash ⟨⟨[], []⟩, ⟨[], []⟩, l, [], []⟩] WholeProgram.empty
+      = some { WholeProgram.empty with classes := if l = [] then [] else [l] } := by
+  have hok : TUSummary.Ok simp ⟨⟨[], []⟩, ⟨[], []⟩, l, [], []⟩ = true := by simp [TUSummary.Ok, FileInfo.Ok, BufferInfo.Ok, h]
+  rw [cacheFile_roundtrip simp hash _ hok]
+  simp [addInMemory, WholeProgram.empty]
+
+example : UnsafeUsage.Ok ⟨"x.h:1:6".toList, 1, "p".toList, ⟨"a&b.c".toList, 2, 16⟩, -9223372036854775808⟩ = true := by decide
+example : ClassDef.Ok ⟨"ns::S<int>".toList, "k.cpp".toList, "A;B=\"1\"".toList, 1, 8, 18446744073709551615⟩ = true := by decide
+
+/-! ## the behaviour before the fix (F2), kept as documentation -/
+
+/-- the old writer: nested calls as `<function-call …>` -/
+def storeOld (simp : Str → Str) (hash : Nat) (fi : FileInfo) : Str := storeFile hash [("ctu".toList, fi.toStrOld simp)]
+
+/-- **before the fix, every nested call was lost**: whatever the summary, only the function calls came back -/
+theorem nestedCall_lost_before_fix (simp : Str → Str) (hash : Nat) (fi : FileInfo) (h : fi.Ok simp = true) :
+    fromBuildDir [storeOld simp hash fi] WholeProgram.empty = some { WholeProgram.empty with ctu := ⟨fi.functionCalls, []⟩ } := by
+  have hraw := fileInfo_ok_raw simp fi h
+  have hr := fileInfo_renders simp "function-call" (by decide) (by decide) fi hraw.1 hraw.2
+  simp only [FileInfo.Ok, Bool.and_eq_true] at h
+  unfold storeOld fromBuildDir
+  rw [loadFile_single hash "ctu".toList (fi.toStrOld simp) _ (by decide) hr]
+  simp only
+  by_cases he : fi.toStrOld simp = []
+  · have := fileInfo_toStr_nil simp "function-call" fi he
+    simp [he, handleInfos, fromBuildDir, this.1, WholeProgram.empty]
+  · simp only [he, if_false]
+    rw [handleInfos_one, handleInfo_ctu]
+    simp only [fromBuildDir, FileInfo.loadFromXml, Elem.kids, loadCalls_append, loadCalls_fcs simp _ _ h.1, loadCalls_ncs_old,
+      WholeProgram.empty, List.nil_append]
+
+/-- so the round trip was false of the old code: a single nested call is a counterexample -/
+theorem nestedCall_old_counterexample :
+    ¬ (∀ (simp : Str → Str) (hash : Nat) (fi : FileInfo), fi.Ok simp = true →
+        fromBuildDir [storeOld simp hash fi] WholeProgram.empty = some { WholeProgram.empty with ctu := fi }) := by
+  intro hall
+  let nc : NestedCall := ⟨"x.h:1:6".toList, "h".toList, 1, ⟨"b.c".toList, 2, 15⟩, "x.h:1:20".toList, 1⟩
+  have hok : FileInfo.Ok id ⟨[], [nc]⟩ = true := by decide
+  have h1 := hall id 1 ⟨[], [nc]⟩ hok
+  rw [nestedCall_lost_before_fix id 1 ⟨[], [nc]⟩ hok] at h1
+  simp [WholeProgram.empty] at h1
+
+/-! ## the hypotheses are needed -/
+
+/-- a function id with an entity look-alike (file `&amp;.h`) comes back different; one with a quote (`a"b.h`) makes the
+    whole cache file unreadable (`failed to load …`, internalError, no whole-program analysis at all) -/
+theorem rawField_counterexample :
+    fromBuildDir [(onlyCtu ⟨[⟨"&amp;.h:1:6".toList, "f".toList, 1, ⟨"a.c".toList, 1, 2⟩, "p".toList, 0, 0, 0, false, []⟩], []⟩).store id 1] WholeProgram.empty
+      = some { WholeProgram.empty with ctu := ⟨[⟨"&.h:1:6".toList, "f".toList, 1, ⟨"a.c".toList, 1, 2⟩, "p".toList, 0, 0, 0, false, []⟩], []⟩ }
+    ∧ fromBuildDir [(onlyCtu ⟨[⟨"a\"b.h:1:6".toList, "f".toList, 1, ⟨"a.c".toList, 1, 2⟩, "p".toList, 0, 0, 0, false, []⟩], []⟩).store id 1] WholeProgram.empty
+      = none := by
+  constructor <;> decide +kernel
+
+/-- the unrestricted statement ("every summary value survives") is therefore false of the code -/
+theorem roundtrip_unrestricted_counterexample :
+    ¬ (∀ (simp : Str → Str) (hash : Nat) (fi : FileInfo),
+        fromBuildDir [(onlyCtu fi).store simp hash] WholeProgram.empty = some { WholeProgram.empty with ctu := fi }) := by
+  intro hall
+  have h1 := hall id 1 ⟨[⟨"a\"b.h:1:6".toList, "f".toList, 1, ⟨"a.c".toList, 1, 2⟩, "p".toList, 0, 0, 0, false, []⟩], []⟩
+  rw [rawField_counterexample.2] at h1
+  exact absurd h1 (by simp)
+
+/-- a value-path file name that `simplifyPath` changes does not come back (here `simp` maps everything to "a.c") -/
+theorem pathFile_counterexample :
+    fromBuildDir [(onlyCtu ⟨[⟨"x.h:1:6".toList, "f".toList, 1, ⟨"a.c".toList, 1, 2⟩, "p".toList, 0, 0, 0, false,
+        [⟨"./a.c".toList, "note".toList, 3, 4⟩]⟩], []⟩).store (fun _ => "a.c".toList) 1] WholeProgram.empty
+      = some { WholeProgram.empty with ctu := ⟨[⟨"x.h:1:6".toList, "f".toList, 1, ⟨"a.c".toList, 1, 2⟩, "p".toList, 0, 0, 0, false,
+        [⟨"a.c".toList, "note".toList, 3, 4⟩]⟩], []⟩ } := by
+  decide +kernel
+
 end Cppcheck.Ctu
+
+namespace Cppcheck.Unused
+open Cppcheck.Wire Cppcheck.Ctu
+
+/-! ## unused functions -/
+
+/-- **summary text.** The `<FileInfo check="CheckUnusedFunctions">` text of a translation unit, written into a cache file
+    and read back by the handler of `analyseWholeProgram(buildDir)`, yields the declarations and calls of that unit. -/
+theorem unusedInfo_roundtrip (src : Str) (c : Collected) (t : TU) (h : t.TextOk = true) :
+    collectText src c (analyzerInfo t) = .ok (collectTU c t) := collectText_analyzerInfo src c t h
+
+example : TU.TextOk ⟨[⟨"f<1>".toList, "u0.c".toList, 3, 13, true, false, false⟩], [⟨"g".toList, "u0.c".toList⟩]⟩ = true := by decide
+
+/-- **the two algorithms.**  On every program (list of translation units given by the effects of `parseTokens`) that satisfies
+    `UnusedHyp`, the `unusedFunction` findings of the in-memory algorithm (`CheckUnusedFunctions::check`) and of the build-dir
+    algorithm (`analyseWholeProgram(buildDir)`) are the same set, and neither list has duplicates.
+    `entry` = `Library::isentrypoint`, arbitrary. -/
+theorem unused_wp_equiv (entry : Str → Bool) (tus : List TU) (h : UnusedHyp tus = true) :
+    (∀ x, x ∈ unusedInMemory entry tus ↔ x ∈ unusedBuildDir entry tus)
+    ∧ (unusedInMemory entry tus).Nodup ∧ (unusedBuildDir entry tus).Nodup := by
+  have inv : Inv (allDecls tus) (finalMap tus) (tus.foldl collectTU ⟨[], []⟩) :=
+    inv_tus (allDecls tus) tus [] ⟨[], []⟩ (declOk_of_hyp tus h) (inv_empty _)
+  have hstrip : ∀ n, n ∈ amKeys (tus.foldl collectTU ⟨[], []⟩).decls → strip n = n := by
+    intro n hn
+    obtain ⟨d, hd, hname, _⟩ := inv.fromDecl n hn
+    obtain ⟨t, ht, hdt⟩ := List.mem_flatMap.mp hd
+    have := (declOk_of_hyp tus h t ht d hdt).noLt
+    rw [← hname]; exact strip_id _ this
+  refine ⟨?_, ?_, ?_⟩
+  · intro x
+    rw [mem_unusedInMemory, unusedBuildDir, mem_checkCollected]
+    constructor
+    · rintro ⟨e, he, ⟨h1, h2, h3, h4, h5⟩, rfl⟩
+      have hget := get_of_mem _ _ _ inv.mkeys he
+      have hkey : e.1 ∈ amKeys (finalMap tus) := List.mem_map.mpr ⟨e, he, rfl⟩
+      have hlk : lookup (finalMap tus) e.1 = e.2 := by unfold lookup; rw [hget]; rfl
+      have hdecl : e.1 ∈ amKeys (tus.foldl collectTU ⟨[], []⟩).decls := (inv.declared e.1).mpr ⟨hkey, by rw [hlk]; exact h2⟩
+      have hloc := inv.loc e.1 hdecl
+      rw [hlk] at hloc
+      have hs := hstrip e.1 hdecl
+      refine ⟨(e.1, (e.2.filename, e.2.line, e.2.col)), mem_of_get _ _ _ hloc, ⟨by rw [hs]; exact h3, ?_, by rw [hs]; exact h5⟩, ?_⟩
+      · rw [hs]
+        intro hc
+        have := ((inv.called e.1).mp hc).2
+        rw [hlk, h1, h4] at this
+        exact absurd this (by decide)
+      · have hp := inv.notPlus e.1
+        rw [hlk] at hp
+        simp [shownFile, hp, hs]
+    · rintro ⟨e, he, ⟨h1, h2, h3⟩, rfl⟩
+      have hkey : e.1 ∈ amKeys (tus.foldl collectTU ⟨[], []⟩).decls := List.mem_map.mpr ⟨e, he, rfl⟩
+      have hs := hstrip e.1 hkey
+      rw [hs] at h1 h2 h3
+      have hm := (inv.declared e.1).mp hkey
+      have hloc := inv.loc e.1 hkey
+      rw [get_of_mem _ _ _ inv.dkeys he] at hloc
+      have heq := Option.some.inj hloc
+      have hnc : ¬ (((lookup (finalMap tus) e.1).usedSameFile || (lookup (finalMap tus) e.1).usedOtherFile) = true) :=
+        fun hf => h2 ((inv.called e.1).mpr ⟨hm.1, hf⟩)
+      have hflags : (lookup (finalMap tus) e.1).usedSameFile = false ∧ (lookup (finalMap tus) e.1).usedOtherFile = false := by
+        cases hA : (lookup (finalMap tus) e.1).usedSameFile <;> cases hB : (lookup (finalMap tus) e.1).usedOtherFile <;> simp_all
+      have hget : ∃ u, amGet? (finalMap tus) e.1 = some u ∧ lookup (finalMap tus) e.1 = u := by
+        have := (mem_keys_iff_get _ _).mp hm.1
+        cases hg : amGet? (finalMap tus) e.1 with
+        | none => rw [hg] at this; simp at this
+        | some u => exact ⟨u, rfl, by unfold lookup; rw [hg]; rfl⟩
+      obtain ⟨u, hgu, hlu⟩ := hget
+      rw [hlu] at hm hflags heq
+      refine ⟨(e.1, u), mem_of_get _ _ _ hgu, ⟨hflags.2, hm.2, h1, hflags.1, h3⟩, ?_⟩
+      have hp := inv.notPlus e.1
+      rw [hlu] at hp
+      have e1 : e.2.1 = u.filename := (congrArg (·.1) heq)
+      have e2 : e.2.2.1 = u.line := (congrArg (·.2.1) heq)
+      have e3 : e.2.2.2 = u.col := (congrArg (·.2.2) heq)
+      simp [shownFile, hp, hs, e1, e2, e3]
+  · unfold unusedInMemory
+    apply nodup_filterMap_keys _ _ inv.mkeys
+    intro e _ x hx
+    by_cases h1 : (e.2.usedOtherFile || decide (e.2.filename = [])) = true
+    · simp [h1] at hx
+    · simp only [h1, Bool.false_eq_true, if_false] at hx
+      split at hx
+      · simp at hx
+      · split at hx
+        · split at hx
+          · simp at hx
+          · simp only [Option.some.injEq] at hx; rw [← hx]
+        · simp at hx
+  · unfold unusedBuildDir checkCollected
+    apply nodup_filterMap_keys _ _ inv.dkeys
+    intro e he x hx
+    have hs := hstrip e.1 (List.mem_map.mpr ⟨e, he, rfl⟩)
+    simp only at hx
+    split at hx
+    · simp at hx
+    · split at hx
+      · simp only [Option.some.injEq] at hx; rw [← hx]; exact hs
+      · simp at hx
+
+example : UnusedHyp [⟨[⟨"f".toList, "u0.c".toList, 1, 13, true, true, false⟩, ⟨"main".toList, "u0.c".toList, 2, 5, true, false, false⟩],
+    [⟨"f".toList, "u0.c".toList⟩]⟩, ⟨[⟨"g".toList, "u1.c".toList, 1, 6, true, false, false⟩], []⟩] = true := by decide
+
+def isMainName (n : Str) : Bool := n = "main".toList
+
+/-- the location hypothesis is needed (F19): one name defined in two files, both unused —
+    in memory the first definition is reported, with a build dir the last one -/
+theorem unused_dupname_counterexample :
+    unusedInMemory isMainName [⟨[⟨"f".toList, "a.c".toList, 1, 13, true, true, false⟩], []⟩, ⟨[⟨"f".toList, "b.c".toList, 3, 13, true, true, false⟩], []⟩]
+      = [⟨"a.c".toList, 1, 13, "f".toList⟩]
+    ∧ unusedBuildDir isMainName [⟨[⟨"f".toList, "a.c".toList, 1, 13, true, true, false⟩], []⟩, ⟨[⟨"f".toList, "b.c".toList, 3, 13, true, true, false⟩], []⟩]
+      = [⟨"b.c".toList, 3, 13, "f".toList⟩] := by
+  constructor <;> decide +kernel
+
+/-- `staticFunction` exists only in memory (F20): `void g(void){}` used only inside its own C file -/
+theorem static_counterexample :
+    staticInMemory isMainName [⟨[⟨"g".toList, "c.c".toList, 1, 6, true, false, false⟩, ⟨"k".toList, "c.c".toList, 2, 6, true, false, false⟩],
+      [⟨"g".toList, "c.c".toList⟩]⟩] = [⟨"c.c".toList, 1, 6, "g".toList⟩]
+    ∧ unusedBuildDir isMainName [⟨[⟨"g".toList, "c.c".toList, 1, 6, true, false, false⟩, ⟨"k".toList, "c.c".toList, 2, 6, true, false, false⟩],
+      [⟨"g".toList, "c.c".toList⟩]⟩] = [⟨"c.c".toList, 2, 6, "k".toList⟩] := by
+  constructor <;> decide +kernel
+
+/-- the attribute hypothesis is needed in the model (no C input that reaches this branch of `parseTokens` was found) -/
+theorem unused_retattr_counterexample :
+    unusedInMemory isMainName [⟨[⟨"f".toList, "a.c".toList, 1, 13, true, false, true⟩], []⟩] = []
+    ∧ unusedBuildDir isMainName [⟨[⟨"f".toList, "a.c".toList, 1, 13, true, false, true⟩], []⟩] = [⟨"a.c".toList, 1, 13, "f".toList⟩] := by
+  constructor <;> decide +kernel
+
+end Cppcheck.Unused
